@@ -103,9 +103,13 @@ Definition parse_query (s : str) : option (list (str * str)) :=
                     end) (Some []) parts
   end.
 
+(* "." and ".." segments are removed by URL reference resolution (net/url): not judged *)
+Definition has_dot_segment (p : str) : bool :=
+  existsb (fun seg => str_eqb seg (b ".") || str_eqb seg (b "..")) (split_all c_slash p (length p)).
+
 Definition parse_path_query (s : str) : option (str * list (str * str)) :=
   let '(p, q) := split_on c_qm s in
-  if forallb path_char p then
+  if forallb path_char p && negb (has_dot_segment p) then
     match q with
     | None => Some (p, [])
     | Some qs => match parse_query qs with Some l => Some (p, l) | None => None end
